@@ -739,6 +739,15 @@ def r28_as_f32(text, base_line=0):
     return pat.sub(lambda m: "usize_as_f32(%s)" % m.group(1), text), log
 
 
+def r55_len_as_f32(text, base_line=0):
+    """R55: `E.len() as f32` (E = a path of field accesses / argument-less calls) -> `usize_as_f32(E.len())` (R28 restricted to lengths: other `as f32` casts stay)"""
+    log = []
+    pat = re.compile(r"(\b\w+(?:\s*\.\w+(?:\(\))?)*\s*\.len\(\))\s+as\s+f32\b")
+    for m in pat.finditer(text):
+        log.append("R55 line %d: `%s` -> `usize_as_f32(%s)`" % (base_line + text.count("\n", 0, m.start()), " ".join(m.group(0).split()), " ".join(m.group(1).split())))
+    return pat.sub(lambda m: "usize_as_f32(%s)" % m.group(1), text), log
+
+
 def r29_consuming_for(text, base_line=0):
     """R29: `for (A, B, C) in V {` (consuming a Vec in order) -> `let mut __v = V; while __v.len() > 0 { let (A, B, C) = __v.remove(0);`
     (same elements in the same order; vstd specifies `Vec::remove`, not the `IntoIter` of this Verus version)"""
@@ -1238,6 +1247,39 @@ def r53_flat_zip_map_sum(text, base_line=0):
         text = text[:m.start()] + new + text[k + tail.end():]
 
 
+def r54_zip_map_collect(text, base_line=0):
+    """R54: `X.iter().zip(Y.iter()).map(|(a, b)| BODY).collect::<T>()` (nested: innermost first) -> `({ let mut __m_a: T = Vec::new();
+    for __q_a in 0..min(X.len(), Y.len()) { let (a, b) = (&X[__q_a], &Y[__q_a]); __m_a.push(BODY); } __m_a })`"""
+    log = []
+    pat = re.compile(r"(\w+)\s*\.iter\(\)\s*\.zip\((\w+)\.iter\(\)\)\s*\.map\(\s*\|\((\w+),\s*(\w+)\)\|\s*")
+    while True:
+        ms = list(pat.finditer(text))
+        if not ms:
+            return text, log
+        m = ms[-1]
+        x, y, a, b = m.groups()
+        k, depth = m.end(), 0
+        while k < len(text):
+            ch = text[k]
+            if ch in "([{":
+                depth += 1
+            elif ch in ")]}":
+                if depth == 0:
+                    break
+                depth -= 1
+            k += 1
+        tail = re.match(r"\)\s*\.collect::<([^;()]*?)>\(\)", text[k:])
+        if not tail:
+            raise LostAnchor("R54: `.collect::<T>()` does not follow the mapped closure")
+        body = text[m.end():k].rstrip().rstrip(",").rstrip()
+        new = ("({ let mut __m_%s: %s = Vec::new(); for __q_%s in 0..(if %s.len() < %s.len() { %s.len() } else { %s.len() }) { let (%s, %s) = (&%s[__q_%s], &%s[__q_%s]); __m_%s.push("
+               % (a, tail.group(1), a, x, y, x, y, a, b, x, a, y, a, a)) + body + "); } __m_%s })" % a
+        new += "\n" * max(0, text[m.start():k + tail.end()].count("\n") - new.count("\n"))
+        log.append("R54 line %d: `%s.iter().zip(%s.iter()).map(|(%s, %s)| ..).collect::<%s>()` -> index loop over the shorter length pushing the closure value into a new vector"
+                   % (base_line + text.count("\n", 0, m.start()), x, y, a, b, tail.group(1)))
+        text = text[:m.start()] + new + text[k + tail.end():]
+
+
 def r21_to_owned(text, base_line=0):
     """R21: `.to_owned()` -> `.clone()` (identical for a `Clone` type; vstd specifies `Clone`)"""
     log = []
@@ -1255,9 +1297,9 @@ REWRITES = {
     "R1": r1_compound_assign, "R2": r2_unary_minus, "R3": r3_scale_call, "R6": r6_for_with_continue,
     "R7": r7_isqrt, "R8": r8_step_by, "R9": r9_consts, "R10": r10_tail_continue,
     "R12": r12_enumerate, "R15": r15_iter, "R16": r16_map_index, "R17": r17_for_in_ref_vec, "R18": r18_assert_eq_shape,
-    "R19": r19_last_unwrap, "R20": r20_range_enumerate, "R21": r21_to_owned, "R22": r22_map_collect, "R23": r23_slice_iter, "R24": r24_name_wildcard_loop, "R25": r25_par_map_collect, "R26": r26_zip_iter_mut, "R27": r27_sum_f32, "R28": r28_as_f32, "R29": r29_consuming_for, "R30": r30_rev_take_collect, "R31": r31_zip_map_sum, "R32": r32_chunked_zip_flat_map, "R33": r33_unzip, "R34": r34_chunked_flat_map, "R35": r35_chunk_const, "R36": r36_extend, "R37": r37_for_in_ref, "R38": r38_flat_map3, "R39": r39_unflatten, "R42": r42_assert_eq, "R43": r43_mut_self, "R44": r44_name_tail_call, "R45": r45_min_method, "R47": r47_zip_mut_enumerate, "R48": r48_fold_max, "R49": r49_chunks_exact_view, "R50": r50_inner_map_collect, "R51": r51_last_mut, "R52": r52_extend_clone, "R53": r53_flat_zip_map_sum, "R46": r46_f32_as_usize, "R40": r40_for_mut_ref, "R41": r41_iter_mut_for_each, "R13": r13_panic_allowed, "R14": r14_panic_forbidden,
+    "R19": r19_last_unwrap, "R20": r20_range_enumerate, "R21": r21_to_owned, "R22": r22_map_collect, "R23": r23_slice_iter, "R24": r24_name_wildcard_loop, "R25": r25_par_map_collect, "R26": r26_zip_iter_mut, "R27": r27_sum_f32, "R28": r28_as_f32, "R29": r29_consuming_for, "R30": r30_rev_take_collect, "R31": r31_zip_map_sum, "R32": r32_chunked_zip_flat_map, "R33": r33_unzip, "R34": r34_chunked_flat_map, "R35": r35_chunk_const, "R36": r36_extend, "R37": r37_for_in_ref, "R38": r38_flat_map3, "R39": r39_unflatten, "R42": r42_assert_eq, "R43": r43_mut_self, "R44": r44_name_tail_call, "R45": r45_min_method, "R47": r47_zip_mut_enumerate, "R48": r48_fold_max, "R49": r49_chunks_exact_view, "R50": r50_inner_map_collect, "R51": r51_last_mut, "R52": r52_extend_clone, "R53": r53_flat_zip_map_sum, "R54": r54_zip_map_collect, "R55": r55_len_as_f32, "R46": r46_f32_as_usize, "R40": r40_for_mut_ref, "R41": r41_iter_mut_for_each, "R13": r13_panic_allowed, "R14": r14_panic_forbidden,
 }
-ORDER = ["R42", "R43", "R44", "R28", "R46", "R45", "R47", "R48", "R49", "R18", "R13", "R14", "R16", "R53", "R50", "R51", "R52", "R40", "R41", "R38", "R39", "R36", "R37", "R31", "R32", "R34", "R35", "R33", "R25", "R26", "R29", "R30", "R27", "R20", "R22", "R23", "R24", "R12", "R15", "R17", "R19", "R21", "R10", "R8", "R6", "R9", "R7", "R3", "R1", "R2"]
+ORDER = ["R42", "R43", "R44", "R28", "R46", "R45", "R47", "R48", "R49", "R18", "R13", "R14", "R16", "R55", "R53", "R54", "R50", "R51", "R52", "R40", "R41", "R38", "R39", "R36", "R37", "R31", "R32", "R34", "R35", "R33", "R25", "R26", "R29", "R30", "R27", "R20", "R22", "R23", "R24", "R12", "R15", "R17", "R19", "R21", "R10", "R8", "R6", "R9", "R7", "R3", "R1", "R2"]
 
 
 def apply_rewrites(text, names, base_line):
